@@ -470,6 +470,17 @@ func normalizespaceFunc(arg1 query) func(query, iterator) interface{} {
 	}
 }
 
+// xpathRound returns the integer closest to x, the one closer to positive infinity when there
+// are two (XPath 1.0 section 4.4). floor(x + 0.5) is not that: the sum is itself rounded, so that
+// 0.49999999999999994 and the odd integers above 2^52 come out one too high.
+func xpathRound(x float64) float64 {
+	r := math.Floor(x)
+	if x-r >= 0.5 {
+		return r + 1
+	}
+	return r
+}
+
 // substringFunc is XPath functions substring function returns a part of a given string.
 func substringFunc(arg1, arg2, arg3 query) func(query, iterator) interface{} {
 	return func(_ query, t iterator) interface{} {
@@ -491,14 +502,14 @@ func substringFunc(arg1, arg2, arg3 query) func(query, iterator) interface{} {
 			panic(errors.New("substring() function first argument type must be number"))
 		}
 		// XPath 1.0 section 4.2: the characters at the positions p (counted from 1) with
-		// round(start) <= p < round(start) + round(length), where round(x) is floor(x + 0.5).
-		first := math.Floor(start + 0.5)
+		// round(start) <= p < round(start) + round(length).
+		first := xpathRound(start)
 		last := math.Inf(1)
 		if arg3 != nil {
 			if length, ok = functionArgs(arg3).Evaluate(t).(float64); !ok {
 				panic(errors.New("substring() function second argument type must be number"))
 			}
-			last = first + math.Floor(length+0.5)
+			last = first + xpathRound(length)
 		}
 		if math.IsNaN(first) || math.IsNaN(last) {
 			return ""
